@@ -72,7 +72,7 @@ flush_before_rename!(c10_unspent_f0, 1, 0);
 flush_before_rename!(c10_unspent_0_ok, 0, usize::MAX);
 
 // C02: file name; C07 unspent_rows: row content with real formatting (one entry, symbolic small index)
-//@ id=C02,C07 tier=thorough name=c07_unspent_row timeout=5400 role=unspent_rows bound=1-entry,index<10-symbolic,height/value-single-digit,start-7,last-99 mem=20 fn=UnspentCsvDump::on_complete,UnspentCsvDump::on_start
+//@ id=C02,C07 tier=extra name=c07_unspent_row timeout=5400 role=unspent_rows bound=1-entry,index<10-symbolic,height/value-single-digit,start-7,last-99 mem=20 fn=UnspentCsvDump::on_complete,UnspentCsvDump::on_start
 #[kani::proof]
 #[kani::unwind(70)]
 fn c07_unspent_row() {
